@@ -179,11 +179,14 @@ pub fn certificate_tests(pinf: bool, p: &Prob, r: &Run, ev: &KktEval, skip: &[bo
     if pinf {
         let (mz, cz) = worst_margin(&p.cones, &r.z, true, skip);
         ensure!(mz >= -1e-9, &format!("{}pinf-z-outside-dual-cone", prefix), "cone #{} ({}) margin {:e} z={:?}", cz, p.cones[cz].tag(), mz, r.z);
-        ensure!(ev.btz < 0.0, &format!("{}pinf-btz-not-negative", prefix), "b'z = {}", ev.btz);
+        // (the returned vector is itself rounded: a value of b'z below the rounding error of forming it from that
+        // vector has no determinable sign, and the same allowance enters the absolute test)
+        let allow_b = round_allow(ev.terms, ev.mag_btz);
+        ensure!(ev.btz < allow_b, &format!("{}pinf-btz-not-negative", prefix), "b'z = {}", ev.btz);
         let dot_bz = kappa * c * ev.btz;
         let res = kappa * ev.norm_atz / f64::max(1.0, kappa * ev.normz);
         let abs = kappa * round_allow(ev.terms, ev.mag_atz) / f64::max(1.0, kappa * ev.normz);
-        ensure!(dot_bz < -tol_abs * (1.0 - SLACK_REL), &format!("{}pinf-abs-test", prefix), "kappa*c*b'z = {:e} !< -tol_infeas_abs {:e}", dot_bz, tol_abs);
+        ensure!(dot_bz < -tol_abs * (1.0 - SLACK_REL) + kappa * c * allow_b, &format!("{}pinf-abs-test", prefix), "kappa*c*b'z = {:e} !< -tol_infeas_abs {:e}", dot_bz, tol_abs);
         ensure!(
             res < tol_rel * (-dot_bz) * (1.0 + SLACK_REL) + abs,
             &format!("{}pinf-rel-test", prefix),
@@ -197,13 +200,14 @@ pub fn certificate_tests(pinf: bool, p: &Prob, r: &Run, ev: &KktEval, skip: &[bo
     } else {
         let (ms, cs) = worst_margin(&p.cones, &r.s, false, skip);
         ensure!(ms >= -1e-9, &format!("{}dinf-s-outside-cone", prefix), "cone #{} ({}) margin {:e} s={:?}", cs, p.cones[cs].tag(), ms, r.s);
-        ensure!(ev.qtx < 0.0, &format!("{}dinf-qtx-not-negative", prefix), "q'x = {}", ev.qtx);
+        let allow_q = round_allow(ev.terms, ev.mag_qtx);
+        ensure!(ev.qtx < allow_q, &format!("{}dinf-qtx-not-negative", prefix), "q'x = {}", ev.qtx);
         let dot_qx = kappa * c * ev.qtx;
         let res1 = c * kappa * ev.norm_px / f64::max(1.0, kappa * ev.normx);
         let res2 = kappa * ev.norm_axs / f64::max(1.0, kappa * (ev.normx + ev.norms));
         let res = f64::max(res1, res2);
         let abs = kappa * round_allow(ev.terms, ev.mag_px + ev.mag_axs) / f64::max(1.0, kappa * ev.normx);
-        ensure!(dot_qx < -tol_abs * (1.0 - SLACK_REL), &format!("{}dinf-abs-test", prefix), "kappa*c*q'x = {:e} !< -tol_infeas_abs {:e}", dot_qx, tol_abs);
+        ensure!(dot_qx < -tol_abs * (1.0 - SLACK_REL) + kappa * c * allow_q, &format!("{}dinf-abs-test", prefix), "kappa*c*q'x = {:e} !< -tol_infeas_abs {:e}", dot_qx, tol_abs);
         ensure!(
             res < tol_rel * (-dot_qx) * (1.0 + SLACK_REL) + abs,
             &format!("{}dinf-rel-test", prefix),
@@ -252,7 +256,16 @@ pub fn judge_c02(p: &Prob, ss: &SettingsSpec, r: &Run, bound: f64) -> CaseResult
         r.kappa_after,
         tau / kappa
     );
-    certificate_tests(pinf, p, r, &ev, &skip, kappa, st.tol_infeas_abs, st.tol_infeas_rel, "")?;
+    if let Err(v) = certificate_tests(pinf, p, r, &ev, &skip, kappa, st.tol_infeas_abs, st.tol_infeas_rel, "") {
+        // a kept right-hand side of 1e15 or more (a "no bound" value below the infinity bound) puts the rounding
+        // noise of the solver's own dot products far above tol_infeas_abs: such cases get their own key (they are
+        // the subject of an open known finding); everything else is reported under the plain key
+        let huge = (0..p.m).any(|i| !skip[i] && p.b[i].abs() >= 1e15);
+        if huge {
+            return Err(Violation::new(&format!("huge-rhs:{}", v.key), v.detail));
+        }
+        return Err(v);
+    }
     Ok(())
 }
 
@@ -351,13 +364,13 @@ pub fn judge_c03(p: &Prob, ss: &SettingsSpec, r: &Run, bound: f64) -> CaseResult
         }
     }
     if r.status == SolverStatus::AlmostPrimalInfeasible {
-        ensure!(ev.btz < 0.0, "almostpinf-btz-not-negative", "b'z={}", ev.btz);
+        ensure!(ev.btz < round_allow(ev.terms, ev.mag_btz), "almostpinf-btz-not-negative", "b'z={}", ev.btz);
         // scale-free necessary condition of the documented reduced test
         let (mz, cz) = worst_margin(&p.cones, &r.z, true, &skip);
         ensure!(mz >= -1e-9, "almostpinf-z-outside-dual-cone", "cone #{} margin {:e}", cz, mz);
     }
     if r.status == SolverStatus::AlmostDualInfeasible {
-        ensure!(ev.qtx < 0.0, "almostdinf-qtx-not-negative", "q'x={}", ev.qtx);
+        ensure!(ev.qtx < round_allow(ev.terms, ev.mag_qtx), "almostdinf-qtx-not-negative", "q'x={}", ev.qtx);
         let (ms, cs) = worst_margin(&p.cones, &r.s, false, &skip);
         ensure!(ms >= -1e-9, "almostdinf-s-outside-cone", "cone #{} margin {:e}", cs, ms);
     }
